@@ -14,7 +14,42 @@ import (
 	"github.com/cosmos/iavl"
 	idb "github.com/cosmos/iavl/db"
 	"github.com/cosmos/iavl/fastnode"
+	ics23 "github.com/cosmos/ics23/go"
 )
+
+// parseExist reads `<key> <value> <leafprefix> <n> <pfx1> <sfx1> ...` or `-` (no proof) from toks.
+func parseExist(toks []string) (*ics23.ExistenceProof, []string) {
+	if toks[0] == "-" {
+		return nil, toks[1:]
+	}
+	e := &ics23.ExistenceProof{Key: dec(toks[0]), Value: dec(toks[1]), Leaf: &ics23.LeafOp{
+		Hash: ics23.HashOp_SHA256, PrehashValue: ics23.HashOp_SHA256, Length: ics23.LengthOp_VAR_PROTO, Prefix: dec(toks[2])}}
+	n := int(atoi(toks[3]))
+	toks = toks[4:]
+	for i := 0; i < n; i++ {
+		e.Path = append(e.Path, &ics23.InnerOp{Hash: ics23.HashOp_SHA256, Prefix: dec(toks[0]), Suffix: dec(toks[1])})
+		toks = toks[2:]
+	}
+	return e, toks
+}
+
+// icsVerify: the verdict of the real ics23 verifier under IavlSpec (C03: the Lean model of the
+// verifier, about which soundness is proved, is compared with it on genuine and mutated proofs).
+//   vex  <root> <key> <value> <exist...>
+//   vnon <root> <key> L <exist...|-> R <exist...|->
+func icsVerify(args []string) string {
+	root := dec(args[1])
+	key := dec(args[2])
+	if args[0] == "vex" {
+		e, _ := parseExist(args[4:])
+		p := &ics23.CommitmentProof{Proof: &ics23.CommitmentProof_Exist{Exist: e}}
+		return b2s(ics23.VerifyMembership(ics23.IavlSpec, root, p, key, dec(args[3])))
+	}
+	l, rest := parseExist(args[4:])
+	r, _ := parseExist(rest[1:])
+	p := &ics23.CommitmentProof{Proof: &ics23.CommitmentProof_Nonexist{Nonexist: &ics23.NonExistenceProof{Key: key, Left: l, Right: r}}}
+	return b2s(ics23.VerifyNonMembership(ics23.IavlSpec, root, p, key))
+}
 
 func codecExec(args []string) (res string) {
 	defer func() {
@@ -25,6 +60,10 @@ func codecExec(args []string) (res string) {
 			}
 		}
 	}()
+	switch args[0] {
+	case "vex", "vnon":
+		return icsVerify(args)
+	}
 	bz := dec(args[1])
 	switch args[0] {
 	case "makenode":
